@@ -20,6 +20,12 @@ P.update({
  "C03": dict(live=True, cat="proof", technique="Coq proof of every scalar functor with explicit machine-word wrap (Shoup / Barrett-Newton range lemmas) closed over the generated tables + differential correspondence on 4 builds and every SIMD lane",
    text="addmod, submod, mulmod (division and 64-bit Barrett-Newton), compute_shoup on every word, mulmod_shoup, muladd (both), lazy muladd_shoup are proved exact for every row of the generated tables and all canonical operands (functors_exact); the SSE/AVX2 addmod kernel is proved lane-wise equal to the scalar functor. Correspondence: extracted model vs nfl::ops functors (serial, NFL_OPTIMIZED, SSE, AVX2), cases solved for the comparison boundaries (x+y in {p-1,p,p+1}, x*y = 0,1,p-1, Shoup remainder >= p, words >= p), each vector kernel in a rotating lane with all other lanes cross-checked.",
    note=TB + "16-bit functors go through C++ integer promotion; the model wraps at limb width (equal under the proved preconditions). Vector kernels other than addmod: correspondence only."),
+ "C07": dict(live=True, cat="proof", technique="Coq proof by induction over expression trees (functor exactness) + aliasing-tolerant blockwise assignment theorem + differential correspondence over 22 shapes x destinations x poly/poly_p x 3 back ends",
+   text="For trees of unbounded depth over canonical leaves the functor chain with machine-word wrap equals exact modular evaluation (eval_exact), shoup(a*b,compute_shoup(b)) needs no side condition, and assignment in blocks of any vector width with the destination aliasing any operand writes the element-wise value on the ORIGINAL operands and nothing else (assign_eval, width-independent). Correspondence: every shape of a 22-entry list x destination in {fresh,a,b,c} x {poly,poly_p} x {assign,construct,add/sub/mul helpers} on serial/SSE/AVX2, all four operands printed after the statement; the compiler's accept/reject relation per (back end, limb, kind) is pinned in expr_table.json.",
+   note=TB + "Mode/typing rules (which functor specialisation evaluates which node) are not modelled: they are observable only through accept/reject (pinned table) and through results (compared)."),
+ "C08": dict(live=True, cat="proof", technique="Coq proof of the any-of / all-of scans (eq_spec, neq_spec, complementarity, refutation of the pinned any-of ==) + differential correspondence at every position",
+   text="a != b <-> some word differs, a == b <-> all words equal, complementary (proved for any length); bool(expr) <-> some non-zero word. Correspondence on 13 comparison shapes (plain, expression on either side, self, shared-handle copy) for pairs equal / differing / equal-exactly-at / differing-exactly-at every position, poly and poly_p, 3 back ends. Found and fixed: a == b was true when ANY residue matched.",
+   note=TB + "GCC vector-extension == on __m128i/__m256i compares 64-bit lanes; that is covered by correspondence on the SIMD builds, not by the model."),
 })
 ALL = ["C%02d" % i for i in range(1, 20)]
 checks, na = [], []
